@@ -20,6 +20,22 @@ type requestStream struct {
 	reader          *bufio.Reader
 	totalBytesRead  int
 	chunkLeft       int
+	chunkedEOF      bool
+}
+
+// fullyRead reports whether the whole framed request body has been consumed
+// from the connection, i.e. whether the next byte on the connection belongs
+// to the next request.
+func (rs *requestStream) fullyRead() bool {
+	contentLength := rs.header.ContentLength()
+	if contentLength == -1 {
+		return rs.chunkedEOF
+	}
+	consumed := rs.totalBytesRead
+	if rs.prefetchedBytes != nil && int(rs.prefetchedBytes.Size()) > consumed {
+		consumed = int(rs.prefetchedBytes.Size())
+	}
+	return consumed >= contentLength
 }
 
 func (rs *requestStream) Read(p []byte) (int, error) {
@@ -38,6 +54,7 @@ func (rs *requestStream) Read(p []byte) (int, error) {
 				if err != nil && err != io.EOF {
 					return 0, err
 				}
+				rs.chunkedEOF = true
 				return 0, io.EOF
 			}
 			rs.chunkLeft = chunkSize
@@ -98,6 +115,7 @@ func releaseRequestStream(rs *requestStream) {
 	rs.prefetchedBytes = nil
 	rs.totalBytesRead = 0
 	rs.chunkLeft = 0
+	rs.chunkedEOF = false
 	rs.reader = nil
 	rs.header = nil
 	requestStreamPool.Put(rs)
